@@ -177,7 +177,10 @@ def run(chk):
               "reply-delay profiles; Map of 3 items with every listed failure set x MaxConcurrency 0-2 x with/without Catch; nested "
               "Parallel-in-Parallel with inner caught / inner uncaught / outer failure / both; each under the canonical and seeded "
               "random schedules; after every step: one terminal notification, record frozen, nothing appended to history after the "
-              "terminal event, ack ledger and ordering, drained at rest; at the end: outcome vs Asl.run, no task request after failure"))
+              "terminal event, ack ledger and ordering, drained at rest; at the end: outcome vs Asl.run, no task request after failure; "
+              "C06.matches_fan_protocol: every run (Map batches excepted) abstracted into the alphabet of the Lean protocol model of nested "
+              "fan-out attempts and compared with it after every step (join state and outputs); witnesses of the open findings C06-F3/F4/F5 "
+              "(nested failure after a handled failure, three levels of nesting, back stop under a stalled top-level event)"))
 
 
 def replay(chk, path):
